@@ -111,6 +111,25 @@ Theorem C08_repaired_classes_hold : holds_b r_f2 = true /\ holds_b r_f3 = true /
 Proof. exact (conj repaired_f2 (conj repaired_f3 repaired_f6)). Qed.
 Print Assumptions C08_repaired_classes_hold.
 
+(* the decomposition of every record into its components (total token/stake = own part + delegations',
+   every component's stake = floor(its token / unit), so the total stake is the SUM of floors) is kept by
+   every operation of the value-level semantics that meets the callers' discipline; for an update that
+   discipline says: move the totals by the change of the own part.  Example: a 1 YOU deposit on 99.99 YOU own
+   + 50.49 YOU delegated booked by deltas (total stake 150) keeps the property, booked as
+   floor(total token / unit) = 151 it is the first operation outside [safe] and breaks it.  (The real
+   handlers of package staking - teDeposit, teWithdraw, takePenalty ... - are not modelled; the harness runs
+   them unmodified with this clause in its oracle.) *)
+Theorem C08_component_decomposition_preserved :
+  (forall s o, J s -> a_pre s o = true ->
+     forall a x, aget (xs (core (a_step s o))) a = Some x -> decomposed x) /\
+  (forall old u, upd_ok old u = true ->
+     u_token u - v_token old = u_stoken u - v_stoken old /\
+     u_stake u - v_stake old = u_sstake u - v_sstake old /\
+     u_sstake u = u_stoken u / stake_unit) /\
+  holds_b dep_by_deltas = true /\ refutes dep_by_floor_of_total.
+Proof. exact (conj decomposition_preserved (conj upd_ok_deltas (conj dep_by_deltas_holds refuted_dep_by_floor))). Qed.
+Print Assumptions C08_component_decomposition_preserved.
+
 (* 5. Validator.Less is a strict total order on validators with distinct
    addresses, so the sorted validator list and the voter indexes derived from
    it are well defined *)
